@@ -93,7 +93,8 @@ def h_roundtrip(ctx):
     label, spec = ctx.choose("key", keys())
     jwk = c13.resolve(spec)
     kty = jwk["kty"]
-    how = ctx.choose("origin", ["dict", "bytes", "bytearray-wiped-afterwards"] if kty == "oct" else ["dict", "native", "pem", "der", "bytearray-wiped-afterwards"])
+    how = ctx.choose("origin", ["dict", "dict, the parameters given as the separate argument", "bytes", "bytearray-wiped-afterwards"] if kty == "oct"
+                     else ["dict", "dict, the parameters given as the separate argument", "native", "pem", "der", "bytearray-wiped-afterwards"])
     private = ctx.choose("private", [True] if kty == "oct" else [True, False])
     params = ctx.deviate("parameters", [None, {"kid": "k1", "use": "sig"}, {"x5t": "t", "x5c": ["AAAA"], "key_ops": ["sign", "verify", "deriveKey"]},
                                         {"kid": "cle\u0301-\u212b-\u1112\u1161\u11ab"}])
@@ -119,6 +120,15 @@ def h_roundtrip(ctx):
             return key_
         k = call(via_buffer)
         given = {**(jwk if private else rjwk.public_of(jwk)), **(params or {})}
+    elif how.startswith("dict,"):
+        # the JWK carries members of its own (an old kid, another use) and the caller passes parameters= next to it: what is given is the JWK
+        # with the parameters on top
+        if not params:
+            return Outcome("n/a", [], nontrivial=None)
+        src = {**(jwk if private else rjwk.public_of(jwk)), "kid": "kid-inside-the-jwk", "x5t": "thumbprint-inside-the-jwk"}
+        k = call(A.jkey, src, "dict", private, copy.deepcopy(params))
+        given = {**src, **params}
+        how = "dict"
     elif how == "dict" and params:
         k = call(A.jkey, {**(jwk if private else rjwk.public_of(jwk)), **copy.deepcopy(params)}, "dict")
         given = {**(jwk if private else rjwk.public_of(jwk)), **params}
@@ -326,6 +336,43 @@ def h_generated(ctx):
             elif rjwk.public_of(numbers(r2.value)) != rjwk.public_of(ref):
                 vs.append(viol(f"re-imported generated key has different material ({tag})", f"{lab}: {name}"))
     return Outcome(f"generated:{kty}:{'ok' if not vs else 'bad'}", vs, nontrivial=nt)
+
+
+SET_MEMBERS = [("oct32", True), ("P-256", True), ("Ed25519", True), ("rsa1024", True), ("P-384", False), ("X25519", False)]
+
+
+def h_set_export(ctx):
+    """A key set's JWK export is the list of its members' own exports - whatever the order of key types in the set."""
+    import itertools
+    from joserfc.jwk import KeySet
+    combo = ctx.choose("members", list(itertools.permutations(range(len(SET_MEMBERS)), 3)))
+    flag = ctx.choose("private", [None, False, True])
+    extra = ctx.choose("export_parameters", [None, {"use": "sig"}])
+    members = [SET_MEMBERS[i] for i in combo]
+    if flag is True and any(not priv for _, priv in members):
+        return Outcome("n/a:private-export-of-a-set-with-public-only-members", [], nontrivial=None)
+    jwks = [scen.key(kind, j) for j, (kind, _) in enumerate(members)]
+    keys = [A.jkey(j, "dict", private=(priv or j["kty"] == "oct")) for j, (_, priv) in zip(jwks, members)]
+    ks = KeySet(keys)
+    kw = dict(extra or {})
+    r = call(lambda: ks.as_dict(**kw) if flag is None else ks.as_dict(private=flag, **kw))
+    what = f"members {[k for k, _ in members]} (private: {[p for _, p in members]}), as_dict(private={flag}, {extra})"
+    nt = (combo, flag, repr(extra))
+    if not r.ok:
+        return Outcome("set-export-failed", [viol("export of a key set fails", f"{what}: {r.exc!r}")], nontrivial=nt)
+    vs = []
+    entries = r.value.get("keys") if isinstance(r.value, dict) else None
+    if not isinstance(entries, list) or len(entries) != len(keys):
+        return Outcome("set-export-shape", [viol("a key set export does not list every member", f"{what}: {str(r.value)[:200]}")], nontrivial=nt)
+    for j, (k, jwk, e) in enumerate(zip(keys, jwks, entries)):
+        own = k.as_dict(**kw) if (flag is None or jwk["kty"] == "oct") else k.as_dict(private=flag, **kw)
+        if e != own:
+            diff = sorted(m for m in set(e) | set(own) if e.get(m) != own.get(m))
+            vs.append(viol(f"a key set export lists a member differently from the member's own export ({jwk['kty']} at position {j + 1}, private={flag})", f"{what}: differing members {diff}"))
+        leaked = sorted(set(e) & set(rjwk.PRIVATE.get(jwk["kty"], ()))) if jwk["kty"] != "oct" else []
+        if flag is False and leaked:
+            vs.append(viol(f"a public key set export carries private members of an asymmetric member ({jwk['kty']} at position {j + 1})", f"{what}: {leaked}"))
+    return Outcome(f"set-export:{'ok' if not vs else 'bad'}:{flag}", vs, nontrivial=nt)
 
 
 # ------------------------------------------------------------------ malformed JWKs
@@ -555,6 +602,7 @@ def h_bad_parameters(ctx):
 PARTS = [
     Part("roundtrips", h_roundtrip, bound={"quick": 1, "thorough": 2}, split_depth=1, budget={"quick": 1500, "thorough": 2400}),
     Part("generated-keys", h_generated, split_depth=2),
+    Part("key-set-exports", h_set_export, split_depth=2),
     Part("malformed-jwk", h_malformed, bound={"quick": 1, "thorough": 1}, split_depth=3),
     Part("invalid-parameters-on-native-keys", h_bad_parameters, split_depth=2),
 ]
